@@ -28,8 +28,39 @@ import (
 const (
 	verifDir = "/verif"
 	simDir   = "/verif/sim"
-	buildDir = "/verif/.build"
 )
+
+// Overridable for sensitivity experiments on scratch copies of the repository:
+// VERIF_REPO selects the tree to build against (default /repo) and
+// VERIF_SCRATCH a directory that receives build output, evidence and replays
+// instead of /verif (so that such experiments never touch the registered
+// evidence). The registered commands never set them.
+var (
+	repoDir  = "/repo"
+	outRoot  = verifDir
+	buildDir = "/verif/.build"
+	modFile  = ""
+)
+
+func setupPaths() error {
+	if v := os.Getenv("VERIF_SCRATCH"); v != "" {
+		outRoot = v
+		buildDir = filepath.Join(v, ".build")
+	}
+	if err := os.MkdirAll(filepath.Join(buildDir, "out"), 0o755); err != nil {
+		return err
+	}
+	if v := os.Getenv("VERIF_REPO"); v != "" && v != "/repo" {
+		repoDir = v
+		modFile = filepath.Join(buildDir, "alt.mod")
+		mod := "module verif/sim\n\ngo 1.26.8\n\nrequire github.com/pierrec/lz4/v4 v4.0.0\n\nreplace github.com/pierrec/lz4/v4 => " + v + "\n"
+		if err := os.WriteFile(modFile, []byte(mod), 0o644); err != nil {
+			return err
+		}
+		os.WriteFile(filepath.Join(buildDir, "alt.sum"), nil, 0o644)
+	}
+	return nil
+}
 
 type tierCfg struct {
 	Runs     int // number of run indices
@@ -58,27 +89,27 @@ func init() {
 	add := func(id, level string, q, t tierCfg, rule string) {
 		props[id] = &propCfg{Level: level, Quick: q, Thorough: t, Rule: rule, Assume: common}
 	}
-	add("C02", "exploration", tierCfg{6000, 0, 120000}, tierCfg{400000, 2, 1500000},
+	add("C02", "exploration", tierCfg{12000, 0, 180000}, tierCfg{600000, 2, 1500000},
 		"seeded plans: option matrix x input class/length x Write/Flush partition or ReadFrom x Reader concurrency x Read sizes or WriteTo x source fragmentation x schedule x pool mode; distinct = distinct plan hash; non-trivial = spawned a library goroutine, or >=2 writer calls / non-empty stored stream")
-	add("C09", "exploration", tierCfg{6000, 0, 120000}, tierCfg{400000, 2, 1500000},
+	add("C09", "exploration", tierCfg{12000, 0, 180000}, tierCfg{600000, 2, 1500000},
 		"as C02 plus crafted inputs (stored block or content hashing to 0, incompressible blocks, legacy) and CompressingReader output; every emitted frame goes through the strict reference parser; distinct = distinct plan hash; non-trivial as C02")
-	add("C08", "exploration", tierCfg{9000, 5, 120000}, tierCfg{1200000, 6, 1500000},
+	add("C08", "exploration", tierCfg{9000, 5, 180000}, tierCfg{700000, 6, 1500000},
 		"seeded plans: 1-2 clients (Writer scripts with Write/Flush/Close/Reset/ReadFrom, Reader scripts with Read/WriteTo/early error) with concurrency >= 2, on-block-done handlers, all scheduler policies and pool modes, sink/source faults in a minority; part of the workers run the race-detector build; distinct = distinct plan hash; non-trivial = spawned >= 1 library goroutine")
-	add("C14", "exploration", tierCfg{5000, 3, 120000}, tierCfg{300000, 4, 1500000},
+	add("C14", "exploration", tierCfg{3600, 2, 180000}, tierCfg{300000, 4, 1500000},
 		"seeded plans: a sequential single-Write reference frame vs variants (concurrency, schedule, Write partition, ReadFrom fragmentation, dirty pool re-issue, concurrent foreign client, handler stalls) and repeated package-level block calls; distinct = distinct plan hash; non-trivial = spawned >= 1 library goroutine or >= 2 writer calls")
-	add("C15", "fault_enumeration", tierCfg{1200, 0, 120000}, tierCfg{60000, 2, 1500000},
+	add("C15", "fault_enumeration", tierCfg{2000, 0, 180000}, tierCfg{60000, 2, 1500000},
 		"per generated base plan the failing call index k is enumerated over every sink (source) call of the fault-free run (all k when <= 64 calls, else first/last 16, around every Flush, 32 sampled) x fail/short x once/forever (source: (0,err)/(n,err)); plus fragmentation-invariance groups; distinct = distinct concrete plan hash (fault point inlined); non-trivial = a fault fired")
-	add("C06", "fault_enumeration", tierCfg{500, 0, 120000}, tierCfg{30000, 2, 1500000},
+	add("C06", "fault_enumeration", tierCfg{500, 0, 180000}, tierCfg{14000, 2, 1500000},
 		"per generated frame every prefix length 1..len-1 (frames <= 2 KiB) or every field boundary +-3 plus 64 sampled offsets, each read with a seeded choice of Reader concurrency, Read/WriteTo, EOF style and fragmentation; distinct = distinct concrete plan hash (cut inlined); non-trivial = the cut fired")
-	add("C05", "exploration", tierCfg{12000, 0, 120000}, tierCfg{800000, 2, 1500000},
+	add("C05", "exploration", tierCfg{20000, 0, 180000}, tierCfg{1000000, 2, 1500000},
 		"seeded corruptions (field-targeted bit flips/byte substitutions, multi-edit, block delete/duplicate/swap, splices) of valid frames from the library Writer and the reference encoder, read with concurrency 1/2/4 via Read and WriteTo; distinct = distinct plan hash; non-trivial = a corruption was applied")
-	add("C07", "exploration", tierCfg{12000, 0, 120000}, tierCfg{800000, 2, 1500000},
+	add("C07", "exploration", tierCfg{12000, 0, 180000}, tierCfg{500000, 2, 1500000},
 		"seeded hostile streams (random bytes, heavily mutated frames, grammar-built hostile field values, magic words around every reserved value, long repetitions) read with concurrency 1/2/4 via Read and WriteTo, plus the 256 words 0x184D2Axx and the legacy-magic recursion child; distinct = distinct plan hash; non-trivial = non-empty stored stream")
-	add("C16", "exploration", tierCfg{3000, 0, 120000}, tierCfg{200000, 2, 1500000},
+	add("C16", "exploration", tierCfg{6000, 0, 180000}, tierCfg{250000, 2, 1500000},
 		"seeded dependent-block frames from the reference encoder (block lengths from a few bytes to the maximum, cross-block matches, offsets of exactly 65535, raw blocks, checksums) read with every Read-size sequence, WriteTo, fragmentation and ConcurrencyOption 1/2/4; distinct = distinct plan hash; non-trivial = frame has >= 2 blocks")
-	add("C17", "exploration", tierCfg{16000, 0, 120000}, tierCfg{1000000, 2, 1500000},
+	add("C17", "exploration", tierCfg{30000, 2, 180000}, tierCfg{1500000, 3, 1500000},
 		"call sequences over the Writer/Reader alphabets: exhaustive to length 3 (quick) / 4 (thorough) with one representative argument per class, seeded random to length 12, sequential and concurrent objects, each checked against the reference lifecycle model and, for Reset, differentially against a fresh object; distinct = distinct plan hash; non-trivial = >= 2 calls")
-	add("C18", "exploration", tierCfg{10000, 0, 120000}, tierCfg{600000, 2, 1500000},
+	add("C18", "exploration", tierCfg{10000, 0, 180000}, tierCfg{500000, 2, 1500000},
 		"seeded CompressingReader runs: input class/length x options x source fragmentation/EOF style/k-th call failure x Read buffer-size sequences (0, 1, 2..8, small, about one block, larger than the frame; adaptive switching when overflow is pending); distinct = distinct plan hash; non-trivial = >= 2 Read calls")
 }
 
@@ -101,6 +132,9 @@ func build(race bool) (string, error) {
 	if race {
 		out = filepath.Join(buildDir, "sim.race.test")
 		args = []string{"test", "-c", "-race", "-tags", "verif", "-o", out}
+	}
+	if modFile != "" {
+		args = append(args, "-modfile="+modFile)
 	}
 	args = append(args, "./engine/")
 	cmd := exec.Command(goBin(), args...)
@@ -409,7 +443,10 @@ func main() {
 		fmt.Fprintln(os.Stderr, "usage: driver check <PROP> <quick|thorough> | replay <file> | selftest")
 		os.Exit(2)
 	}
-	os.MkdirAll(filepath.Join(buildDir, "out"), 0o755)
+	if err := setupPaths(); err != nil {
+		fmt.Fprintln(os.Stderr, err)
+		os.Exit(2)
+	}
 	switch os.Args[1] {
 	case "check":
 		if len(os.Args) < 4 {
@@ -670,7 +707,7 @@ func check(prop, tier string) int {
 	}
 	exit := 0
 	nviol := 0
-	os.MkdirAll(filepath.Join(verifDir, "replays"), 0o755)
+	os.MkdirAll(filepath.Join(outRoot, "replays"), 0o755)
 	minDeadline := time.Now().Add(90 * time.Second)
 	if tier == "thorough" {
 		minDeadline = time.Now().Add(10 * time.Minute)
@@ -718,7 +755,7 @@ func check(prop, tier string) int {
 			}
 		}
 		name := fmt.Sprintf("%s-%s-%016x.json", prop, sanitize(g.first.Violations[0].Class), plan.HashString(s))
-		path := filepath.Join(verifDir, "replays", name)
+		path := filepath.Join(outRoot, "replays", name)
 		final.Note = fmt.Sprintf("found by check %s %s VERIF_SEED=%d run index %d; %s", prop, tier, int64(seed), g.first.Index, reproduced)
 		pretty, _ := json.MarshalIndent(final, "", " ")
 		os.WriteFile(path, pretty, 0o644)
@@ -736,30 +773,30 @@ func check(prop, tier string) int {
 		}
 	}
 	cov := map[string]interface{}{
-		"evaluations":           total.Execs,
-		"distinct_nontrivial":   len(plans),
-		"rule":                  cfg.Rule,
-		"samples":               total.Samples,
-		"runs":                  total.Runs,
-		"runs_per_hour":         int(float64(total.Runs) / wall * 3600),
-		"executions_per_hour":   int(float64(total.Execs) / wall * 3600),
-		"simulated_time_steps":  total.Steps,
-		"distinct_interleavings": len(traces),
+		"evaluations":              total.Execs,
+		"distinct_nontrivial":      len(plans),
+		"rule":                     cfg.Rule,
+		"samples":                  total.Samples,
+		"runs":                     total.Runs,
+		"runs_per_hour":            int(float64(total.Runs) / wall * 3600),
+		"executions_per_hour":      int(float64(total.Execs) / wall * 3600),
+		"simulated_time_steps":     total.Steps,
+		"distinct_interleavings":   len(traces),
 		"distinct_pipeline_states": len(states),
-		"interleaving_measure":  "distinct hashes of the (goroutine kind @ hook site) choice sequence of a run; pipeline state = multiset of (kind @ site) over live goroutines at a step",
-		"faults_fired_and_probes": nonZero(total.Probes),
-		"probes_stuck_at_zero":  zero,
-		"scenario_kinds":        total.Kinds,
-		"race_detector_runs":    raceRuns,
-		"workers":               nw,
-		"real_vs_stub":          "real: lz4 Writer/Reader/CompressingReader, lz4stream, lz4block (asm decoder), xxh32, goroutines, channels, mutex, Go runtime, race detector; stub: io endpoints (SimDisk), block-buffer pools (adversarial, except pass-through runs), scheduling choice at hooked points, OnBlockDone handlers, GOMAXPROCS",
-		"exhaustive":            false,
+		"interleaving_measure":     "distinct hashes of the (goroutine kind @ hook site) choice sequence of a run; pipeline state = multiset of (kind @ site) over live goroutines at a step",
+		"faults_fired_and_probes":  nonZero(total.Probes),
+		"probes_stuck_at_zero":     zero,
+		"scenario_kinds":           total.Kinds,
+		"race_detector_runs":       raceRuns,
+		"workers":                  nw,
+		"real_vs_stub":             "real: lz4 Writer/Reader/CompressingReader, lz4stream, lz4block (asm decoder), xxh32, goroutines, channels, mutex, Go runtime, race detector; stub: io endpoints (SimDisk), block-buffer pools (adversarial, except pass-through runs), scheduling choice at hooked points, OnBlockDone handlers, GOMAXPROCS",
+		"exhaustive":               false,
 	}
 	ev := evidence{PropertyID: prop, Tier: tier, Seed: int64(seed), Level: cfg.Level, Coverage: cov, Assumptions: cfg.Assume, WallS: wall, Violations: nviol}
 	if total.Execs > 0 && len(plans) >= 2 {
-		os.MkdirAll(filepath.Join(verifDir, "evidence"), 0o755)
+		os.MkdirAll(filepath.Join(outRoot, "evidence"), 0o755)
 		b, _ := json.MarshalIndent(ev, "", " ")
-		os.WriteFile(filepath.Join(verifDir, "evidence", prop+".json"), b, 0o644)
+		os.WriteFile(filepath.Join(outRoot, "evidence", prop+".json"), b, 0o644)
 	} else {
 		fmt.Fprintf(os.Stderr, "HARNESS: nothing was executed (execs=%d plans=%d)\n", total.Execs, len(plans))
 		harness++
